@@ -30,8 +30,8 @@ func main() { wk.Main("C14", run) }
 
 func run(c *wk.Ctx) {
 	go inspector(c)
-	nseq := c.Pick(240, 4000)
-	nconc := c.Pick(256, 2400)
+	nseq := c.Pick(720, 6000)
+	nconc := c.Pick(768, 3600)
 	if c.Race {
 		nseq = 0
 		nconc = c.Pick(64, 480)
